@@ -10,9 +10,20 @@ Definition check {S} (stp : option S -> obs -> option S) (i : S) (l : list obs) 
   fold_left stp l (Some i).
 
 (* ---- (1) success iff the forwarder answers 200; every other reply: False, nothing raised --------- *)
-(* the reply is a ControlResponse whose StatusCode is 200 *)
+(* the reply is a ControlResponse (TLV type 101, exactly one element, decodable by the generic TLV
+   reader against the ControlResponse layout of the source) whose StatusCode is 200 *)
 Definition status_200 (content : option bytes) : bool :=
-  match parse_response content with Ok (VUint 200, _, _) => true | _ => false end.
+  match content with
+  | None => false
+  | Some b =>
+      match parse_and_check_tl b RESPONSE_TYPE with
+      | Err _ => false
+      | Ok v => match parse_model (depth_of CR) CR false v with
+                | Ok (VUint 200 :: _) => true
+                | _ => false
+                end
+      end
+  end.
 
 (* [validates]: the front-end validates replies, so a Data failing validation is a validation failure *)
 Definition answers_200 (validates : bool) (r : reply) : bool :=
